@@ -458,6 +458,8 @@ ODD_VALUES = [
   # numbers that the g presentation type prints in exponent notation, which TTML does not have
   ("p", "FontSize", L(0.00001, "em")), ("p", "LineHeight", L(0.00002, "c")), ("region", "Origin", ["org", L(0.00001, "%"), L(5, "%")]),
   ("region", "Extent", ["ext", L(1234567, "px"), L(2000000, "px")]),
+  ("p", "Shear", 0.00001), ("p", "Shear", -0.00002), ("p", "FontFamily", ["ff", [""]]), ("p", "FontFamily", ["ff", ["a", ""]]),
+  ("init", "TextDecoration", ["td", None, None, None]), ("init", "Shear", 0.00001),
 ]
 
 
@@ -469,8 +471,11 @@ def fam_odd_values():
     where, prop, val = copy.deepcopy(ODD_VALUES[vi])
     spec = docgen.chain_doc({}, True)
     pnode = spec["body"]["c"][0]["c"][0]
-    tgt = {"region": spec["regions"][0], "p": pnode, "span": pnode["c"][0]}[where]
-    tgt["st"] = {prop: val}
+    if where == "init":
+      spec["init"] = [[prop, val]]
+    else:
+      tgt = {"region": spec["regions"][0], "p": pnode, "span": pnode["c"][0]}[where]
+      tgt["st"] = {prop: val}
     return {"spec": spec, "config": c, "key": f"odd#{i}"}
   return Family("F-odd-values", prod.n, dec, check_rt, timeout=30, note="style values at the edge of what the IMSC syntax can express")
 
